@@ -24,6 +24,12 @@ POLY = {
     "hole": [(-1, -1), (-1, 1), (1, 1), (1, -1)],  # clockwise
     "mid": [(-2, -2), (2, -2), (2, 2), (-2, 2)],
     "far": [(6, 0), (9, 0), (9, 3), (6, 3)],
+    "youa": [(0, 0), (3, 0), (3, 2), (2, 2), (2, 1), (1, 1), (1, 3), (0, 3)],  # U with arms of different height
+    "youb": [(0, 0), (3, 0), (3, 2), (2, 2), (2, 1), (1, 1), (1, 4), (0, 4)],  # arms of very different height
+    "bar2": [(F(1, 5), F(9, 5)), (F(29, 10), F(9, 5)), (F(29, 10), F(19, 10)), (F(1, 5), F(19, 10))],  # off-centre thin bar over the notch of youb
+    "bar": [(F(1, 4), F(5, 4)), (F(11, 4), F(5, 4)), (F(11, 4), F(7, 4)), (F(1, 4), F(7, 4))],  # thin bar bridging the notch of you / youa
+    "tinyo": [(F(-3, 4), F(-3, 4)), (F(3, 4), F(-3, 4)), (F(3, 4), F(3, 4)), (F(-3, 4), F(3, 4))],
+    "tinyi": [(F(-1, 4), F(-1, 4)), (F(-1, 4), F(1, 4)), (F(1, 4), F(1, 4)), (F(1, 4), F(-1, 4))],  # clockwise
     "small": [(F(1, 2), F(1, 2)), (F(3, 2), F(1, 2)), (F(3, 2), F(3, 2)), (F(1, 2), F(3, 2))],
 }
 
@@ -55,6 +61,8 @@ def make(name, tx=0, ty=0):
         return ConnectedShape([poly("mid", tx, ty), poly("hole", tx, ty)])
     if name == "opring":  # the same frame as hollow2, but built the way users do: by an operator
         return poly("mid", tx, ty) - poly("hole", tx, ty, rev=True)
+    if name == "tinyring":  # small frame that fits into the hole of `hollow`
+        return ConnectedShape([poly("tinyo", tx, ty), poly("tinyi", tx, ty)])
     if name == "two":  # two components
         return DisjointShape([poly("square", tx, ty), poly("far", tx, ty)])
     if name == "framedot":  # frame with an island in its hole... a Disjoint of Connected + Simple
@@ -78,6 +86,8 @@ def region_of_name(name, tx=0, ty=0):
         return ("and", [region_of_name("big", tx, ty), region_of_name("hole", tx, ty)])
     if name in ("hollow2", "opring"):
         return ("and", [region_of_name("mid", tx, ty), region_of_name("hole", tx, ty)])
+    if name == "tinyring":
+        return ("and", [region_of_name("tinyo", tx, ty), region_of_name("tinyi", tx, ty)])
     if name == "two":
         return ("or", [region_of_name("square", tx, ty), region_of_name("far", tx, ty)])
     if name == "framedot":
